@@ -597,3 +597,43 @@ func FreePeerPauseDefault(rng *Rng) (string, Cfg) {
 	c.ReadTimeout = 0
 	return "free-peer-pause-default-limit", c
 }
+
+// GatedPartialFrameClose: the writer is held right after its first dequeue while the sender
+// fills the queue (a backlog exists); the peer sends a few frames and then only the first part
+// of a frame and falls silent; a graceful Close is issued while that frame is partly received
+// (the reader's io.ReadFull ends with io.ErrUnexpectedEOF when the read side is shut down);
+// then everything is released in seeded random order and the peer drains to EOF.
+func GatedPartialFrameClose(rng *Rng) (string, Cfg) {
+	c := base(rng, 1)
+	var g idGen
+	k := rng.Range(2, 16)
+	c.Ocap = rng.PickInt(k, k+1, 128)
+	c.Icap = 16
+	c.Senders = [][]PktSpec{g.pkts(rng, k, smallSizes)}
+	c.Closers = []bool{true}
+	n := rng.Range(0, 2)
+	c.Input = append(inputFrames(rng, n, smallSizes), InItem{9, 7000, rng.PickInt(0, 7, 100, 300)})
+	c.Script = []Dir{{DRun, TSender * 1000, 3 * k}}
+	for i := 0; i <= n; i++ {
+		c.Script = append(c.Script, Dir{DEnv, EvPeerWrite, 0})
+	}
+	c.Script = append(c.Script, Dir{DRun, TReader * 1000, 3 * n}, Dir{DRun, TCloser * 1000, 5}, Dir{DFinish, 0, 0})
+	return "gated-partial-frame-close", c
+}
+
+// FreePartialFrameClose: the same at full speed: a large backlog towards a late / slow peer, the
+// peer's last item is an incomplete frame, Close right after the sends.
+func FreePartialFrameClose(rng *Rng) (string, Cfg) {
+	c := base(rng, 0)
+	var g idGen
+	k := rng.Range(50, 300)
+	c.Ocap = 1000
+	c.Icap = 64
+	c.Senders = [][]PktSpec{g.pkts(rng, k, []int{100, 1000, 4000})}
+	c.Closers = []bool{true}
+	c.PeerRead = rng.PickInt(1, 2, 2, 3)
+	c.SmallBuf = rng.Intn(2)
+	c.Input = append(inputFrames(rng, rng.Range(0, 5), smallSizes), InItem{9, 7000, rng.PickInt(0, 7, 100, 300)})
+	c.WaitInput = 1
+	return "free-partial-frame-close", c
+}
